@@ -155,6 +155,8 @@ theorem close_errors_joined :
        ("simpledb.saveCompactionMetadata", "metaWriter.Close", true),
        ("SSTableManager.reflectCompactionResult", "s.allSSTableReaders[i].Close", false),
        ("FileWriter.Close", "w.file.Close", false),
+       ("FileWriter.Close", "w.file.Close", false),
+       ("FileWriter.Close", "w.file.Close", false),
        ("rproto.Writer.Close", "w.writer.Close", false),
        ("Replayer.replayFile", "reader.Close", true)] ∧
     table.all (fun r => r.method != "Close" || reported r) = true := by decide +kernel
@@ -199,12 +201,13 @@ theorem flush_steps_all_checked :
   decide +kernel
 
 /-- The writers release what they hold where the statement stands: `FileWriter.Close` flushes and closes the file on every
-call (only the truncation is conditional); the table writer closes index and data writer unconditionally and not in a
+call (only the truncation is conditional; since 855b3b1 the two error branches close the file as well and join its error); the table writer closes index and data writer unconditionally and not in a
 `defer` (C02-m2), the metadata write and the bloom filter are the conditional parts.  Excludes C19-m4 (an `if … else if`
 chain that closes the file only when no truncation was needed: the error flow stays intact, the descriptor leaks). -/
 theorem writer_close_steps_unconditional :
     (rowsOf "FileWriter.Close").map (fun r => (r.callee, plain r)) =
-      [("w.bufWriter.Flush", true), ("w.file.Truncate", false), ("w.file.Close", true)] ∧
+      [("w.bufWriter.Flush", true), ("w.file.Close", false), ("w.file.Truncate", false), ("w.file.Close", false),
+       ("w.file.Close", true)] ∧
     ((rowsOf "SSTableStreamWriter.Close").filter plain).map (·.callee) = ["writer.indexWriter.Close", "writer.dataWriter.Close"] ∧
     (rowsOf "FileWriter.WriteSync").map (fun r => (r.callee, plain r)) =
       [("w.Write", true), ("w.bufWriter.Flush", true), ("w.file.Sync", true)] := by decide +kernel
